@@ -161,14 +161,14 @@ T.update({
   summary="udp PeerMap::announce (heap representation): a `started` announce no longer removes the announcer's old entry before the reply is built, so a stored peer announcing `started` again can be handed its own address",
   needs="heap representation (>= 3 peers), the requester already stored under the same ip:port, event `started`, and - when others > limit - random offsets covering its slot",
   demo="demo/crates/udp/tests/seeded_demo.rs",
-  caught_by=[],
+  caught_by=[caught("C02", "random", "peer-list-contains-requester"), caught("C01", "hist", "announce-counts", note="with this change the first C01 run did not end within 20 min: proptest stepped back through up to a million flat-map regenerations after the shrink budget - since then max_flat_map_regens = 2000 and a shrinking budget of 120 s; the run now reports the violation after 42 s")],
  ),
  "C03b": dict(
   worktree="/tmp/seed4-C03",
   summary="CanonicalSocketAddr::new uses `ip.to_ipv4()` (guarded by !is_loopback) instead of the ::ffff:a.b.c.d pattern: the deprecated IPv4-compatible block ::a.b.c.d is folded into IPv4 as well",
   needs="a source address in ::/96 other than ::1 and :: (UDP datagram source, HTTP TCP peer or reverse-proxy header address); every other address behaves as before",
   demo="demo/crates/udp/tests/seeded_demo.rs and demo/crates/http/tests/seeded_demo.rs",
-  caught_by=[],
+  caught_by=[caught("C03", "canonical", "canonical-addr")],
  ),
  "C04b": dict(
   worktree="/tmp/seed4-C04",
@@ -196,6 +196,100 @@ T.update({
   summary="http LargePeerMap::clean_and_get_num_peers: the retain closure no longer decrements the cached num_seeders when an expired seeder is dropped",
   needs="heap representation (>= 5 peers), a cleaning pass that removes a seeder while another peer of the torrent survives, then any announce or scrape of it",
   demo="demo.diff (unit tests in crates/http/src/workers/swarm/storage.rs)",
+  caught_by=[caught("C07", "hist", "panic", note="arithmetic overflow in num_seeders_leechers under the harness's overflow checks")],
+ ),
+})
+
+T.update({
+ "C08b": dict(
+  worktree="/tmp/seed4-C08",
+  summary="ws ConnectionReader::handle_announce_request (socket worker): for an occupied entry and event `stopped` the per-connection record of the torrent is removed *before* the peer id is compared, so a `stopped` announce with another peer id is no longer refused and erases the clean-up record of the first id",
+  needs="one connection: announce (T, P), announce (T, P2 != P, stopped), close - P stays stored and counted until it ages out; invisible at storage level",
+  demo="demo/crates/ws/tests/seeded_demo.rs",
+  caught_by=[caught("C17", "ws", "second-peer-id-not-refused", note="C08 itself drives the storage through a harness shim of the socket worker's bookkeeping and cannot see a change in connection.rs (exit 0); the end-to-end check C17 covers the same clause (clean-up on close) against the real socket workers")],
+ ),
+ "C09b": dict(
+  worktree="/tmp/seed4-C09",
+  summary="ws TorrentMap::handle_announce_request truncates the offers to the request's `numwant` before forwarding them (first attempt of this agent was byte-for-byte the round-1 C17 change and was rejected)",
+  needs="an announce with offers and a numwant that is present and smaller than min(offers, max_offers, other peers) - clients send numwant = number of offers",
+  demo="demo.diff (unit test in crates/ws/src/workers/swarm/storage.rs)",
+  caught_by=[caught("C09", "signalling", "offers-too-few", note="missed by construction before: the harness always sent numwant = number of offers. Caught after WS histories got numwant variants (absent, 0, 1, usize::MAX, one less than the offers)")],
+ ),
+ "C10b": dict(
+  worktree="/tmp/seed4-C10",
+  summary="ws handle_offers: `expecting_answers.entry(..).or_insert(valid_until)` - a re-sent offer that is still pending keeps its first deadline",
+  needs="the same peer announcing the same offer id again at least one clock second later, the same receiver chosen, no answer in between, a cleaning pass in [t_first + max_offer_age, t_last + max_offer_age) and the answer after it",
+  demo="demo.diff (unit test in crates/ws/src/workers/swarm/storage.rs)",
+  caught_by=[caught("C10", "ws", "answer-not-forwarded"), caught("C09", "signalling", "answer-not-forwarded")],
+ ),
+ "C11b": dict(
+  worktree="/tmp/seed4-C11",
+  summary="AccessListArcSwap::update skips the swap when `new.difference(old)` is empty - a reload whose new list is a subset of the list in force is silently ignored",
+  needs="a successful reload that only removes entries (or empties the file): allow mode keeps admitting the removed hash and cleaning keeps its torrent, deny mode keeps refusing it",
+  demo="demo.diff (unit tests in crates/common/src/access_list.rs) and demo/crates/udp/tests/access_list_reload.rs",
+  caught_by=[caught("C11", "reload", "decision-differs")],
+ ),
+ "C12b": dict(
+  worktree="/tmp/seed4-C12",
+  summary="ws_protocol json_nesting_too_deep: the `escaped` flag is replaced by 'previous byte is not a backslash', so a string ending in an escaped backslash (\"C:\\\\\") leaves the scanner inside a string for the rest of the message and the depth limit never fires",
+  needs="a message below 64 KiB with a string value ending in `\\\\` followed by a key whose value is nested tens of thousands deep: stack overflow (SIGABRT) in the recursive deserialiser on a 2 MiB worker stack",
+  demo="demo/crates/ws_protocol/tests/seed_c12_demo.rs",
+  caught_by=[caught("C12", "nesting", "stack-overflow-or-abort", note="missed at first (deep nesting was only generated plain or directly behind ordinary fields; 660000 libFuzzer runs did not find the combination either). Caught after lexical decoys were put in front of the nesting: strings ending in an escaped backslash, escaped quotes, brackets inside strings, \\u escapes, bencode strings made of structure letters; alternating and whitespace-separated shapes; the same inputs also over real sockets")],
+ ),
+ "C13b": dict(
+  worktree="/tmp/seed4-C13",
+  summary="udp_protocol Request::parse_bytes dispatches on the last byte of the action field only (`bytes.get(11)`): unknown actions congruent to 0 or 2 mod 256 parse as connect / scrape",
+  needs="an unknown action such as 256, 65536, i32::MIN (-> connect) or 258, 0x01000002 (-> scrape) with a payload valid for that kind; 3, 4, 255, -1 are still rejected",
+  demo="demo/crates/udp_protocol/tests/seeded_demo.rs",
+  caught_by=[caught("C13", "codec", "decode-accepted-malformed")],
+ ),
+ "C14b": dict(
+  worktree="/tmp/seed4-C14",
+  summary="http_protocol Request::parse_http_get_path splits location and query with `rsplit_once('?')`: a raw '?' (0x3f) inside the query - e.g. as an identifier byte - makes the request unparsable",
+  needs="the single byte 0x3f sent raw in info_hash, peer_id, key or an unknown key's value; %3f and every other raw byte still work; Request::write always escapes it",
+  demo="demo/crates/http_protocol/tests/seeded_demo.rs",
+  caught_by=[caught("C14", "codec", "identifier-rejected")],
+ ),
+ "C15b": dict(
+  worktree="/tmp/seed4-C15",
+  summary="ws_protocol AnnounceResponse: #[serde(default)] on complete / incomplete / interval - in the untagged OutMessage enum an error reply carrying action = announce and an info_hash now decodes as an AnnounceResponse with zeros",
+  needs="an ErrorResponse with action announce and info_hash present (what the tracker sends for an answer whose offer expired) decoded through OutMessage; other error replies unaffected",
+  demo="demo/crates/ws_protocol/tests/seeded_demo.rs",
+  caught_by=[caught("C15", "codec", "roundtrip-mismatch")],
+ ),
+ "C16b": dict(
+  worktree="/tmp/seed4-C16",
+  summary="http read_request skips parse_request until `\\r\\n\\r\\n` is found - searching only the bytes of the latest read, not the accumulated buffer",
+  needs="a request split across TCP segments inside its final four bytes, with a pause between the segments: never parsed, no reply until the idle cleaner closes the connection",
+  demo="demo/crates/http/tests/seeded_demo.rs",
+  caught_by=[caught("C16", "http", "no-reply")],
+ ),
+ "C17b": dict(
+  worktree="/tmp/seed4-C17",
+  summary="ws ConnectionReader::handle_announce_request: new first match arm `Entry::Occupied(entry) if event == Stopped => entry.remove()` shadows the peer-id comparison (independently written, same mechanism as C08b)",
+  needs="one connection: announce (T, P1), announce (T, P2 != P1, stopped), close or drop - no ConnectionClosed is sent for T, P1 stays in counts and offer routing until max_peer_age",
+  demo="demo/crates/ws/tests/seeded_demo.rs",
+  caught_by=[],
+ ),
+ "C18b": dict(
+  worktree="/tmp/seed4-C18",
+  summary="udp start-up validation: `response_peer_len = if config.network.use_ipv4 { 6 } else { 18 }` - a dual-stack tracker validates max_response_peers with 6-byte peers and accepts up to 1362 instead of 454",
+  needs="use_ipv4 and use_ipv6 both on (default), max_response_peers >= 456, more than 454 IPv6 peers in one torrent and an IPv6 announce asking for all: the 8228-byte reply does not fit the 8192-byte buffer and is dropped",
+  demo="demo/crates/udp/tests/seeded_demo.rs",
+  caught_by=[caught("C18", "configs", "reply-dropped")],
+ ),
+ "C19b": dict(
+  worktree="/tmp/seed4-C19",
+  summary="aquatic_udp::run supervision loop: indices of all finished handles are collected first and then removed in ascending order - after the first removal the others are off by one, so a live neighbour is joined (run blocks for ever) or the index is out of range (panic)",
+  needs="two or more workers found finished in the same supervision pass (passes are 5 s apart), e.g. socket_workers >= 2 with an address no socket worker can bind; a single dying worker is handled correctly",
+  demo="demo/crates/udp/tests/seeded_demo.rs",
+  caught_by=[],
+ ),
+ "C20b": dict(
+  worktree="/tmp/seed4-C20",
+  summary="udp PeerMap::announce: the 'peer id changed' branch compares only the first 8 bytes - a re-announce under a new id with the same client prefix sends no PeerRemoved(old) / PeerAdded(new); the statistics worker keys by the full id and ignores the later PeerRemoved(new)",
+  needs="statistics.peer_clients on, one (ip, port) announcing with id A, then with B where A[..8] == B[..8] and A != B, then stopping or expiring: a phantom per-client tally remains",
+  demo="demo/crates/udp/tests/seeded_demo.rs",
   caught_by=[],
  ),
 })
